@@ -45,26 +45,27 @@ Proof.
   assert (a / b <= a) by (apply Z.div_le_upper_bound; nia). lia.
 Qed.
 
+
 (** * estimateTailHeight *)
-Lemma estimate_panics_iff tp b h : estimate_tail tp b h = TPanic <-> b = 0.
+Lemma estimate_no_panic tp b h : estimate_tail tp b h <> TPanic.
 Proof.
-  unfold estimate_tail. rewrite <- (div64_none tp b).
-  destruct (div64 tp b); [|tauto].
-  destruct (_ <=? _)%N; split; intros; discriminate.
+  unfold estimate_tail. destruct (Z.leb_spec b 0); [discriminate|].
+  destruct (div64 tp b) eqn:E; [destruct (_ <=? _)%N; discriminate|].
+  apply div64_none in E. lia.
 Qed.
 
-Lemma estimate_in_chain tp b h : b <> 0 -> (1 <= h)%N ->
+Lemma estimate_in_chain tp b h : (1 <= h)%N ->
   exists x, estimate_tail tp b h = TVal x /\ (1 <= x <= h)%N.
 Proof.
-  intros Hb Hh. unfold estimate_tail.
-  destruct (div64 tp b) as [q|] eqn:E; [|apply div64_none in E; contradiction].
+  intros Hh. unfold estimate_tail. destruct (Z.leb_spec b 0); [exists 1%N; split; [reflexivity|lia]|].
+  destruct (div64 tp b) as [q|] eqn:E; [|apply div64_none in E; lia].
   destruct (N.leb_spec h (u64 q)); eexists; split; try reflexivity; lia.
 Qed.
 
-(** * the upward scan *)
-(** with enough fuel and every store lookup in (oldH, storeH) answering, the scan
-    returns a height x >= cur; every height it passed is older than E; it stops
-    below storeH only at a header that is not older than E *)
+(** * the two scans *)
+(** upward: with enough fuel and every store lookup in (oldH, storeH) answering,
+    the scan returns a height x >= cur; every height it passed is older than E; it
+    stops below storeH only at a header that is not older than E *)
 Lemma scan_spec : forall fuel E oldH storeH time_at cur,
   (N.to_nat (storeH - cur) < fuel)%nat ->
   (forall h, (oldH < h < storeH)%N -> exists t, time_at h = Some t) ->
@@ -96,6 +97,41 @@ Proof.
     + exists cur. repeat split; try lia.
 Qed.
 
+(** downward: returns c <= cur; every header in [c, cur) is NOT older than E; it
+    stops above oldH only below a header that is older than E *)
+Lemma scan_down_spec : forall fuel E oldH storeH time_at cur,
+  (N.to_nat (cur - oldH) < fuel)%nat ->
+  (forall h, (oldH <= h <= storeH)%N -> exists t, time_at h = Some t) ->
+  exists c, scan_down fuel E oldH storeH time_at cur = TVal c /\
+    (c <= cur)%N /\
+    ((oldH < cur <= storeH + 1)%N -> (oldH <= c)%N) /\
+    (~ (oldH < cur <= storeH + 1)%N -> c = cur) /\
+    (forall h, (c <= h < cur)%N -> exists t, time_at h = Some t /\ E <= t) /\
+    ((oldH < cur <= storeH + 1)%N -> (oldH < c)%N -> exists t, time_at (c - 1)%N = Some t /\ t < E).
+Proof.
+  induction fuel as [|f IH]; intros E oldH storeH time_at cur Hf Hl.
+  - lia.
+  - cbn [scan_down].
+    destruct ((oldH <? cur)%N && (cur - 1 <=? storeH)%N) eqn:C.
+    + assert (Hc : (oldH < cur <= storeH + 1)%N) by lia.
+      destruct (Hl (cur - 1)%N ltac:(lia)) as [t Ht]. rewrite Ht.
+      destruct (Z.ltb_spec t E).
+      * exists cur. repeat split; try lia. intros _ _. exists t; auto.
+      * destruct (IH E oldH storeH time_at (cur - 1)%N ltac:(lia) Hl) as [c (Hx & Hle & Hge & Heq & Hyoung & Hstop)].
+        exists c. rewrite Hx. split; [reflexivity|]. split; [lia|]. split.
+        { intros _. destruct (N.ltb_spec oldH (cur - 1)).
+          - apply Hge. lia.
+          - rewrite Heq; lia. }
+        split; [lia|]. split.
+        { intros h Hh. destruct (N.eq_dec h (cur - 1)) as [->|Hne].
+          - exists t; split; [assumption|lia].
+          - apply Hyoung. lia. }
+        intros _ Hoc. destruct (N.ltb_spec oldH (cur - 1)).
+        -- apply Hstop; [lia|assumption].
+        -- rewrite Heq in Hoc by lia. lia.
+    + exists cur. repeat split; try lia.
+Qed.
+
 Lemma scan_not_panic : forall fuel E oldH storeH time_at cur,
   scan fuel E oldH storeH time_at cur <> TPanic.
 Proof.
@@ -105,23 +141,77 @@ Proof.
     destruct (_ <=? _); [discriminate|]. apply IH.
 Qed.
 
-Lemma find_tail_panics_iff w b oldH oldT headH headT storeH time_at :
-  find_tail w b oldH oldT headH headT storeH time_at = TPanic <->
-  b = 0 /\ 0 < sat64 (headT + wrapi64 (- w) - oldT).
+Lemma scan_down_not_panic : forall fuel E oldH storeH time_at cur,
+  scan_down fuel E oldH storeH time_at cur <> TPanic.
 Proof.
-  unfold find_tail, find_estimate.
-  set (D := sat64 _).
-  destruct (Z.leb_spec D 0).
-  - split; [discriminate|lia].
-  - destruct (Z.leb_spec w D).
-    + destruct (div64 w b) eqn:E.
-      * split; [intros H1; apply scan_not_panic in H1; contradiction|].
-        intros [Hb _]. subst b. unfold div64 in E. cbn in E. discriminate.
-      * apply div64_none in E. tauto.
-    + destruct (div64 D b) eqn:E.
-      * split; [intros H1; apply scan_not_panic in H1; contradiction|].
-        intros [Hb _]. subst b. unfold div64 in E. cbn in E. discriminate.
-      * apply div64_none in E. tauto.
+  induction fuel as [|f IH]; intros; cbn [scan_down].
+  - destruct (_ && _); discriminate.
+  - destruct (_ && _); [|discriminate]. destruct (time_at (cur - 1)%N); [|discriminate].
+    destruct (_ <? _); [discriminate|]. apply IH.
+Qed.
+
+(** * findTailHeight *)
+Lemma find_estimate_some w b oldH oldT headH headT : exists r, find_estimate w b oldH oldT headH headT = Some r.
+Proof.
+  unfold find_estimate. destruct (_ || _ || _) eqn:G; [eauto|].
+  assert (Hb : b <> 0) by lia.
+  destruct (w <=? _).
+  - destruct (div64 w b) eqn:E; [eauto|apply div64_none in E; contradiction].
+  - match goal with |- context [div64 ?a b] => destruct (div64 a b) eqn:E; [eauto|apply div64_none in E; contradiction] end.
+Qed.
+
+(** never panics: every division is guarded by blockTime > 0 *)
+Lemma find_tail_no_panic w b oldH oldT headH headT storeH time_at :
+  find_tail w b oldH oldT headH headT storeH time_at <> TPanic.
+Proof.
+  unfold find_tail. destruct (find_estimate_some w b oldH oldT headH headT) as [r ->].
+  destruct r as [e|]; [|discriminate].
+  match goal with |- context [scan_down ?f ?E ?o ?s ?t ?c] =>
+    pose proof (scan_down_not_panic f E o s t c); destruct (scan_down f E o s t c) end;
+    try discriminate; try contradiction.
+  apply scan_not_panic.
+Qed.
+
+(** the estimate lies between the old tail and the head *)
+Lemma find_estimate_range w b oldH oldT headH headT e :
+  (headH < two64)%N ->
+  find_estimate w b oldH oldT headH headT = Some (Some e) -> (oldH < headH /\ oldH <= e <= headH)%N.
+Proof.
+  intros H64. unfold find_estimate. destruct (_ || _ || _) eqn:G; [discriminate|].
+  assert (Hlt : (oldH < headH)%N) by lia.
+  assert (Hc : forall k, (clamp_count k oldH headH <= headH - oldH)%N).
+  { intros k. unfold clamp_count, sub64. destruct (N.leb_spec oldH headH); [|lia].
+    destruct (N.leb_spec (headH - oldH) k); lia. }
+  destruct (w <=? _).
+  - destruct (div64 w b); [|discriminate]. intros HH; inversion HH; subst. clear HH.
+    specialize (Hc (u64 z)). unfold sub64. destruct (N.leb_spec (clamp_count (u64 z) oldH headH) headH); lia.
+  - match goal with |- context [div64 ?a b] => destruct (div64 a b) end; [|discriminate]. intros HH; inversion HH; subst. clear HH.
+    specialize (Hc (u64 z)). rewrite (fun x H => N.mod_small x two64 H : wrap64 x = x) by lia. lia.
+Qed.
+
+(** C16 "never wraps", any spacing of header times: the result is a height between
+    the old tail and the head *)
+Lemma find_tail_in_range w b oldH oldT headH headT storeH time_at :
+  (headH < two64)%N -> (storeH <= headH)%N ->
+  (forall h, (oldH <= h <= storeH)%N -> exists t, time_at h = Some t) ->
+  exists x, find_tail w b oldH oldT headH headT storeH time_at = TVal x /\
+            (oldH <= x)%N /\ (x <= N.max oldH headH)%N.
+Proof.
+  intros H64 Hs Hl. unfold find_tail.
+  destruct (find_estimate_some w b oldH oldT headH headT) as [r Hr]. rewrite Hr.
+  destruct r as [e|]; [|exists oldH; split; [reflexivity|lia]].
+  destruct (find_estimate_range _ _ _ _ _ _ _ H64 Hr) as [Hlt He].
+  set (E := headT + wrapi64 (- w)).
+  destruct (scan_down_spec (S (N.to_nat (e - oldH))) E oldH storeH time_at e ltac:(lia) Hl)
+    as [c (Hc & Hle & Hge & Heq & _ & _)]. rewrite Hc.
+  assert (Hl' : forall h, (oldH < h < storeH)%N -> exists t, time_at h = Some t) by (intros; apply Hl; lia).
+  destruct (scan_spec (S (N.to_nat (storeH - c))) E oldH storeH time_at c ltac:(lia) Hl')
+    as [x (Hx & Hge' & Hle' & Heq' & _ & _)].
+  exists x. split; [exact Hx|].
+  assert (Hcr : (oldH <= c <= e)%N).
+  { destruct (N.ltb_spec oldH e); destruct (N.leb_spec e (storeH + 1)); try (rewrite Heq; lia). split; [apply Hge; lia|lia]. }
+  destruct (N.ltb_spec oldH c); destruct (N.ltb_spec c storeH); try (rewrite Heq'; lia).
+  specialize (Hle' ltac:(lia)). lia.
 Qed.
 
 (** * header times spaced by at most the block time *)
@@ -150,115 +240,6 @@ Section Spacing.
   Qed.
 End Spacing.
 
-(** findTailHeight under the property's hypothesis (times of the headers between
-    the old tail and the head spaced by at most the block time), with sane
-    magnitudes (no int64 saturation): the result lies between the old tail and
-    the head, and in the "close" and "relevant as is" cases every header below
-    it is older than the window *)
-Lemma find_tail_spaced (t : N -> Z) w b oldH headH storeH time_at :
-  0 < b -> 0 < w -> sane w -> sane (t oldH) -> sane (t headH) ->
-  (oldH <= storeH <= headH)%N -> (headH < two64)%N ->
-  (forall h, (oldH <= h < headH)%N -> 0 <= t (h + 1)%N - t h <= b) ->
-  (forall h, (oldH < h < storeH)%N -> time_at h = Some (t h)) ->
-  exists x, find_tail w b oldH (t oldH) headH (t headH) storeH time_at = TVal x /\
-    (oldH <= x <= headH)%N /\
-    (t headH - w - t oldH < w -> forall h, (oldH <= h < x)%N -> t h < t headH - w).
-Proof.
-  intros Hb Hw Sw So Sh Hord H64 Hsp Hl.
-  assert (Hl' : forall h, (oldH < h < storeH)%N -> exists t0, time_at h = Some t0)
-    by (intros h Hh; eexists; apply Hl; exact Hh).
-  unfold sane in *. unfold find_tail, find_estimate.
-  rewrite (wrapi64_id (- w)) by (unfold in64, min64, max64, two63; lia).
-  rewrite sat64_id by (unfold in64, min64, max64, two63; lia).
-  replace (t headH + - w) with (t headH - w) by lia.
-  set (E := t headH - w). set (D := E - t oldH).
-  pose proof (spacing_mono t b oldH headH Hb Hsp) as Mono.
-  destruct (Z.leb_spec D 0) as [HD|HD].
-  { exists oldH. split; [reflexivity|]. split; [lia|]. intros _ h Hh. lia. }
-  destruct (Z.leb_spec w D) as [Hfar|Hclose].
-  - (* far *)
-    rewrite (div64_pos w b) by (unfold in64, min64, max64, two63; lia).
-    assert (Hq : 0 <= w / b) by (apply Z.div_pos; lia).
-    assert (Hqb : b * (w / b) <= w) by (apply Z.mul_div_le; lia).
-    pose proof (Mono oldH headH ltac:(lia) ltac:(lia)) as M.
-    assert (Hk : w / b <= Z.of_N (headH - oldH)) by nia.
-    rewrite u64_nonneg by (unfold two63, two64 in *; lia).
-    unfold sub64. destruct (N.leb_spec (Z.to_N (w / b)) headH); [|lia].
-    set (e := (headH - Z.to_N (w / b))%N).
-    destruct (scan_spec (S (N.to_nat (storeH - e))) E oldH storeH time_at e ltac:(lia) Hl')
-      as [x (Hx & Hge & Hle & Heq & _ & _)].
-    exists x. split; [exact Hx|]. split.
-    + destruct (N.ltb_spec oldH e); destruct (N.ltb_spec e storeH); try (rewrite Heq; lia).
-      specialize (Hle ltac:(lia)). lia.
-    + intros Hlt. lia.
-  - (* close *)
-    rewrite (div64_pos D b) by (unfold in64, min64, max64, two63; lia).
-    assert (Hq : 0 <= D / b) by (apply Z.div_pos; lia).
-    assert (Hqb : b * (D / b) <= D) by (apply Z.mul_div_le; lia).
-    (* old tail + D/b stays below the head *)
-    assert (Hk : D / b < Z.of_N (headH - oldH)).
-    { destruct (Z.ltb_spec (D / b) (Z.of_N (headH - oldH))); [assumption|exfalso].
-      pose proof (Mono oldH headH ltac:(lia) ltac:(lia)) as M. nia. }
-    rewrite u64_nonneg by (unfold two63, two64 in *; lia).
-    assert (Hnw : wrap64 (oldH + Z.to_N (D / b)) = (oldH + Z.to_N (D / b))%N)
-      by (unfold wrap64; apply N.mod_small; lia).
-    rewrite Hnw. set (e := (oldH + Z.to_N (D / b))%N).
-    destruct (scan_spec (S (N.to_nat (storeH - e))) E oldH storeH time_at e ltac:(lia) Hl')
-      as [x (Hx & Hge & Hle & Heq & Hold & _)].
-    exists x. split; [exact Hx|].
-    assert (Hxr : (oldH <= x <= headH)%N).
-    { destruct (N.ltb_spec oldH e); destruct (N.ltb_spec e storeH); try (rewrite Heq; lia).
-      specialize (Hle ltac:(lia)). lia. }
-    split; [exact Hxr|].
-    intros _ h Hh.
-    destruct (N.ltb_spec h e) as [Hbelow|Habove].
-    + (* below the estimate: at least one block time older than E *)
-      pose proof (Mono oldH h ltac:(lia) ltac:(lia)) as M.
-      assert (Z.of_N (h - oldH) + 1 <= D / b) by lia. nia.
-    + destruct (Hold h ltac:(lia)) as [t0 [Ht0 Hlt]].
-      rewrite Hl in Ht0; [congruence|].
-      destruct (N.ltb_spec oldH e); destruct (N.ltb_spec e storeH); try (rewrite Heq in Hh; lia).
-      specialize (Hle ltac:(lia)). lia.
-Qed.
-
-(** the "far" case without any assumption on the spacing of header times: the
-    result is a height of the chain exactly when window/blockTime is smaller
-    than the head height *)
-Lemma find_tail_far_iff w b oldH oldT headH headT storeH time_at :
-  0 < b -> 0 < w -> sane w -> sane oldT -> sane headT ->
-  (storeH <= headH)%N -> (headH < two64)%N ->
-  w <= headT - w - oldT ->
-  (forall h, (oldH < h < storeH)%N -> exists t0, time_at h = Some t0) ->
-  exists x, find_tail w b oldH oldT headH headT storeH time_at = TVal x /\
-    ((1 <= x <= headH)%N <-> w / b < Z.of_N headH).
-Proof.
-  intros Hb Hw Sw So Sh Hord H64 Hfar Hl.
-  unfold sane in *. unfold find_tail, find_estimate.
-  rewrite (wrapi64_id (- w)) by (unfold in64, min64, max64, two63; lia).
-  rewrite sat64_id by (unfold in64, min64, max64, two63; lia).
-  destruct (Z.leb_spec (headT + - w - oldT) 0); [lia|].
-  destruct (Z.leb_spec w (headT + - w - oldT)); [|lia].
-  rewrite (div64_pos w b) by (unfold in64, min64, max64, two63; lia).
-  assert (Hq : 0 <= w / b) by (apply Z.div_pos; lia).
-  assert (Hqw : w / b <= w) by (apply Z.div_le_upper_bound; nia).
-  rewrite u64_nonneg by (unfold two63; lia).
-  set (k := Z.to_N (w / b)).
-  set (e := sub64 headH k).
-  destruct (scan_spec (S (N.to_nat (storeH - e))) (headT + - w) oldH storeH time_at e ltac:(lia) Hl)
-    as [x (Hx & Hge & Hle & Heq & _ & _)].
-  exists x. split; [exact Hx|].
-  unfold sub64 in e. destruct (N.leb_spec k headH) as [Hk|Hk].
-  - subst e. destruct (N.eq_dec k headH) as [Hkh|Hkh].
-    + (* window/blockTime = head height: tail height 0 *)
-      rewrite Heq by lia. lia.
-    + destruct (N.ltb_spec oldH (headH - k)); destruct (N.ltb_spec (headH - k) storeH);
-        try (rewrite Heq by lia; lia).
-      specialize (Hle ltac:(lia)). lia.
-  - (* wrap-around *)
-    assert (He : (headH < e)%N) by (subst e; unfold two64 in *; lia).
-    rewrite Heq by lia. lia.
-Qed.
-
 Lemma mono_of_nonneg (t : N -> Z) lo hi :
   (forall h, (lo <= h < hi)%N -> 0 <= t (h + 1)%N - t h) ->
   forall a c, (lo <= a <= c)%N -> (c <= hi)%N -> t a <= t c.
@@ -271,56 +252,91 @@ Proof.
     replace (a + N.succ d)%N with (a + d + 1)%N by lia. lia.
 Qed.
 
-(** the "far" case keeps the window only when the block time is also a LOWER
-    bound of the spacing (from the height below the estimate up to the head) *)
-Lemma find_tail_far_min_spacing (t : N -> Z) w b oldH headH storeH time_at :
-  0 < b -> 0 < w -> sane w -> sane (t oldH) -> sane (t headH) ->
-  (oldH <= storeH <= headH)%N -> (headH < two64)%N ->
-  w <= t headH - w - t oldH ->
-  w / b < Z.of_N headH ->
-  (forall h, (oldH <= h < headH)%N -> 0 <= t (h + 1)%N - t h) ->
-  (forall h, (oldH <= h < headH)%N -> (headH - Z.to_N (w / b) <= h + 1)%N -> b <= t (h + 1)%N - t h) ->
-  (forall h, (oldH < h < storeH)%N -> time_at h = Some (t h)) ->
-  exists x, find_tail w b oldH (t oldH) headH (t headH) storeH time_at = TVal x /\
-    forall h, (oldH <= h < x)%N -> t h < t headH - w.
+(** C16 window clause, any block time, any window, any estimate: with header
+    times of the stored headers non-decreasing, a new tail at most one above the
+    store's head (anything higher cannot be moved to) has only headers older than
+    the window below it *)
+Lemma find_tail_keeps_window (t : N -> Z) w b oldH oldT headH headT storeH time_at x :
+  (oldH <= storeH)%N ->
+  (forall h, (oldH <= h < storeH)%N -> 0 <= t (h + 1)%N - t h) ->
+  (forall h, (oldH <= h <= storeH)%N -> time_at h = Some (t h)) ->
+  find_tail w b oldH oldT headH headT storeH time_at = TVal x -> (x <= storeH + 1)%N ->
+  forall h, (oldH <= h < x)%N -> t h < headT + wrapi64 (- w).
 Proof.
-  intros Hb Hw Sw So Sh Hord H64 Hfar Hk Hmono Hmin Hl.
-  assert (Hl' : forall h, (oldH < h < storeH)%N -> exists t0, time_at h = Some t0)
-    by (intros h Hh; eexists; apply Hl; exact Hh).
+  intros Hos Hmono Hl. unfold find_tail.
+  assert (Hl1 : forall h, (oldH <= h <= storeH)%N -> exists t0, time_at h = Some t0) by (intros; eexists; apply Hl; lia).
+  assert (Hl2 : forall h, (oldH < h < storeH)%N -> exists t0, time_at h = Some t0) by (intros; apply Hl1; lia).
+  destruct (find_estimate_some w b oldH oldT headH headT) as [r ->].
+  destruct r as [e|]; [|intros HH; inversion HH; subst; intros; lia].
+  set (E := headT + wrapi64 (- w)).
+  destruct (scan_down_spec (S (N.to_nat (e - oldH))) E oldH storeH time_at e ltac:(lia) Hl1)
+    as [c (Hc & Hle & Hge & Heq & _ & Hstop)]. rewrite Hc.
+  destruct (scan_spec (S (N.to_nat (storeH - c))) E oldH storeH time_at c ltac:(lia) Hl2)
+    as [x' (Hx & Hge' & Hle' & Heq' & Hold & _)]. rewrite Hx.
+  intros HH; inversion HH; subst x'. clear HH. intros Hxs h Hh.
+  pose proof (mono_of_nonneg t oldH storeH Hmono) as Mono.
+  destruct (N.ltb_spec oldH e) as [Hoe|Hoe].
+  - destruct (N.leb_spec e (storeH + 1)) as [Hes|Hes].
+    + (* the downward scan ran *)
+      specialize (Hge ltac:(lia)).
+      destruct (N.ltb_spec oldH c) as [Hoc|Hoc].
+      * destruct (Hstop ltac:(lia) Hoc) as [t0 [Ht0 Hlt]]. rewrite Hl in Ht0 by lia. inversion Ht0; subst t0.
+        destruct (N.ltb_spec h c).
+        -- pose proof (Mono h (c - 1)%N ltac:(lia) ltac:(lia)). lia.
+        -- destruct (Hold h ltac:(lia)) as [t1 [Ht1 Hlt1]].
+           assert (h < storeH)%N.
+           { destruct (N.ltb_spec c storeH); [specialize (Hle' ltac:(lia)); lia|rewrite Heq' in Hh by lia; lia]. }
+           rewrite Hl in Ht1 by lia. inversion Ht1; subst. exact Hlt1.
+      * rewrite Heq' in Hh by lia. lia.
+    + rewrite Heq in * by lia. rewrite Heq' in * by lia. lia.
+  - rewrite Heq in * by lia. rewrite Heq' in * by lia. lia.
+Qed.
+
+(** under the property's hypothesis, when the "far" case is not taken and the
+    store's head is younger than the window, the new tail is a height the store
+    already holds (used for the no-wedge clause) *)
+Lemma find_tail_spaced_le_store (t : N -> Z) w b oldH headH storeH time_at :
+  (0 < b)%Z -> (0 < w)%Z -> sane w -> sane (t oldH) -> sane (t headH) ->
+  (oldH <= storeH <= headH)%N -> (headH < two64)%N ->
+  (forall h, (oldH <= h < headH)%N -> (0 <= t (h + 1)%N - t h <= b)%Z) ->
+  (forall h, (oldH <= h <= storeH)%N -> time_at h = Some (t h)) ->
+  (t headH - w - t oldH < w)%Z -> (t headH - w < t storeH)%Z ->
+  exists x, find_tail w b oldH (t oldH) headH (t headH) storeH time_at = TVal x /\ (oldH <= x <= storeH)%N.
+Proof.
+  intros Hb Hw Sw So Sh Hord H64 Hsp Hl Hnf Hyoung.
+  assert (Hl1 : forall h, (oldH <= h <= storeH)%N -> exists t0, time_at h = Some t0) by (intros; eexists; apply Hl; lia).
+  assert (Hl2 : forall h, (oldH < h < storeH)%N -> exists t0, time_at h = Some t0) by (intros; apply Hl1; lia).
   unfold sane in *. unfold find_tail, find_estimate.
   rewrite (wrapi64_id (- w)) by (unfold in64, min64, max64, two63; lia).
   rewrite sat64_id by (unfold in64, min64, max64, two63; lia).
-  replace (t headH + - w) with (t headH - w) by lia.
-  destruct (Z.leb_spec (t headH - w - t oldH) 0); [lia|].
-  destruct (Z.leb_spec w (t headH - w - t oldH)); [|lia].
-  rewrite (div64_pos w b) by (unfold in64, min64, max64, two63; lia).
-  assert (Hq : 0 <= w / b) by (apply Z.div_pos; lia).
-  assert (Hqs : w < b * (w / b + 1)) by (pose proof (Z.mul_succ_div_gt w b Hb); lia).
+  replace (t headH + - w)%Z with (t headH - w)%Z by lia.
+  set (E := (t headH - w)%Z). set (D := (E - t oldH)%Z).
+  pose proof (spacing_mono t b oldH headH Hb Hsp) as Mono.
+  destruct (Z.leb_spec D 0) as [HD|HD]; [exists oldH; split; [reflexivity|lia]|].
+  destruct (Z.leb_spec b 0); [lia|].
+  destruct (N.leb_spec headH oldH); [exists oldH; split; [reflexivity|lia]|]. cbn [orb].
+  destruct (Z.leb_spec w D) as [Hfar|Hclose]; [lia|].
+  rewrite (div64_pos D b) by (unfold in64, min64, max64, two63; lia).
+  assert (Hq : (0 <= D / b)%Z) by (apply Z.div_pos; lia).
+  assert (Hqb : (b * (D / b) <= D)%Z) by (apply Z.mul_div_le; lia).
+  assert (Hk : (D / b < Z.of_N (storeH - oldH))%Z).
+  { destruct (Z.ltb_spec (D / b) (Z.of_N (storeH - oldH))); [assumption|exfalso].
+    pose proof (Mono oldH storeH ltac:(lia) ltac:(lia)) as M. nia. }
   rewrite u64_nonneg by (unfold two63, two64 in *; lia).
-  set (k := Z.to_N (w / b)) in *.
-  unfold sub64. destruct (N.leb_spec k headH); [|lia].
-  set (e := (headH - k)%N).
-  destruct (scan_spec (S (N.to_nat (storeH - e))) (t headH - w) oldH storeH time_at e ltac:(lia) Hl')
-    as [x (Hx & Hge & Hle & Heq & Hold & _)].
+  set (k := clamp_count (Z.to_N (D / b)) oldH headH).
+  assert (Hkk : (k <= Z.to_N (D / b))%N).
+  { unfold k, clamp_count, sub64. destruct (N.leb_spec oldH headH); [|lia]. destruct (N.leb_spec (headH - oldH) (Z.to_N (D / b))); lia. }
+  rewrite (fun y H => N.mod_small y two64 H : wrap64 y = y) by lia.
+  set (e := (oldH + k)%N).
+  destruct (scan_down_spec (S (N.to_nat (e - oldH))) E oldH storeH time_at e ltac:(lia) Hl1)
+    as [c (Hc & Hle & Hge & Heq & _ & _)]. rewrite Hc.
+  destruct (scan_spec (S (N.to_nat (storeH - c))) E oldH storeH time_at c ltac:(lia) Hl2)
+    as [x (Hx & Hge' & Hle' & Heq' & _ & _)].
   exists x. split; [exact Hx|].
-  assert (Hup : forall j, (j <= k + 1)%N -> (oldH <= headH - j)%N -> (j <= headH)%N ->
-                          Z.of_N j * b <= t headH - t (headH - j)%N).
-  { induction j as [|j IH] using N.peano_ind; intros Hj Ho Hjh.
-    - rewrite N.sub_0_r. lia.
-    - specialize (IH ltac:(lia) ltac:(lia) ltac:(lia)).
-      pose proof (Hmin (headH - N.succ j)%N ltac:(lia) ltac:(lia)) as M.
-      replace (headH - N.succ j + 1)%N with (headH - j)%N in M by lia. nia. }
-  pose proof (mono_of_nonneg t oldH headH Hmono) as Mono.
-  intros h Hh.
-  destruct (N.ltb_spec h e) as [Hbelow|Habove].
-  - pose proof (Hup (k + 1)%N ltac:(lia) ltac:(lia) ltac:(lia)) as U.
-    replace (headH - (k + 1))%N with (e - 1)%N in U by lia.
-    pose proof (Mono h (e - 1)%N ltac:(lia) ltac:(lia)).
-    assert (Z.of_N (k + 1) = w / b + 1) by lia. nia.
-  - destruct (Hold h ltac:(lia)) as [t0 [Ht0 Hlt]].
-    rewrite Hl in Ht0; [congruence|].
-    destruct (N.ltb_spec oldH e); destruct (N.ltb_spec e storeH); try (rewrite Heq in Hh; lia).
-    specialize (Hle ltac:(lia)). lia.
+  assert (Hcr : (oldH <= c <= e)%N).
+  { destruct (N.ltb_spec oldH e); destruct (N.leb_spec e (storeH + 1)); try (rewrite Heq; lia). split; [apply Hge; lia|lia]. }
+  destruct (N.ltb_spec oldH c); destruct (N.ltb_spec c storeH); try (rewrite Heq'; lia).
+  specialize (Hle' ltac:(lia)). lia.
 Qed.
 
 (** * The abstract store *)
@@ -377,7 +393,7 @@ Proof. reflexivity. Qed.
 
 (** the common end of renewTail + moveTail: the chain header x becomes the tail *)
 Inductive target_res (t h x n : N) : outcome * store * why -> Prop :=
-| TRDone st' : wf st' n -> s_tail st' = x -> (h <= s_head st') -> target_res t h x n (OOk, st', WDone)
+| TRDone st' : wf st' n -> s_tail st' = x -> (h <= s_head st') -> x <= h + 1 -> target_res t h x n (OOk, st', WDone)
 | TRChunk st' : wf st' n -> s_tail st' = x -> s_head st' = h -> x < t -> h = t -> target_res t h x n (OErr, st', WChunk)
 | TRDelete : h + 1 < x -> target_res t h x n (OErr, Store t h [x], WDelete).
 
@@ -488,7 +504,7 @@ Proof.
     pose proof (retarget_spec (s_tail st) (s_head st) x n Ht Hh Hx H64) as R.
     rewrite <- Hst in R.
     set (r := move_tail (st_append st x) (Some (s_tail st)) x) in *. clearbody r.
-    destruct R as [st' W1 W2 W3|st' W1 W2 W3 W4 W5|W1]; cbn [moved].
+    destruct R as [st' W1 W2 W3 W3'|st' W1 W2 W3 W4 W5|W1]; cbn [moved].
     + apply SRDone; auto. lia.
     + apply SRChunk; auto; lia.
     + apply SRDelete; auto; lia.
@@ -628,14 +644,14 @@ Proof.
       destruct (wf_nonempty st1 n Hwf1 E) as (_ & Ht & Hh). lia.
 Qed.
 
-(** * Panics *)
+
+(** * Never panics *)
 Lemma move_tail_out st old x : let '(o, _, _) := move_tail st old x in o = OOk \/ o = OErr.
 Proof.
   unfold move_tail. destruct old as [t|]; [|auto].
   destruct (t <? x); [destruct (st_delete_range st t x); auto|].
   destruct (x <? t); [|auto]. destruct (_ && _); auto.
 Qed.
-
 
 Lemma fetch_tail_out times st old x req :
   o_out (fst (fetch_tail times st old x req)) <> OPanic.
@@ -645,19 +661,41 @@ Proof.
   destruct (move_tail (st_append st x) old x) as [[o s] w]. cbn. destruct M; subst; discriminate.
 Qed.
 
-Lemma tail_height_panic_iff p old headH headT storeH time_at :
-  tail_height p old headH headT storeH time_at = TPanic <->
-  p_from p = 0 /\ p_block p = 0%Z /\
-  match old with
-  | None => True
-  | Some (_, ot) => (0 < sat64 (headT + wrapi64 (- p_window p) - ot))%Z
-  end.
+Lemma tail_height_no_panic p old headH headT storeH time_at :
+  tail_height p old headH headT storeH time_at <> TPanic.
 Proof.
-  unfold tail_height. destruct (N.ltb_spec 0 (p_from p)).
-  - split; [discriminate|lia].
-  - destruct old as [[oh ot]|].
-    + rewrite find_tail_panics_iff. split; [intros [? ?]; repeat split; auto; lia|tauto].
-    + rewrite estimate_panics_iff. split; [intros; repeat split; auto; lia|tauto].
+  unfold tail_height. destruct (0 <? p_from p); [discriminate|].
+  destruct old as [[oh ot]|]; [apply find_tail_no_panic|apply estimate_no_panic].
+Qed.
+
+Lemma subjective_tail_no_panic p times st : o_out (fst (subjective_tail p times st)) <> OPanic.
+Proof.
+  unfold subjective_tail. destruct (p_hash p) as [| |k].
+  - match goal with |- context [tail_height ?a ?b ?c ?d ?e ?f] =>
+      pose proof (tail_height_no_panic a b c d e f) as TP; destruct (tail_height a b c d e f) as [| | |x] end;
+      try contradiction; try (cbn; discriminate).
+    destruct (_ && (x =? 0)); [cbn; discriminate|].
+    destruct (_ && st_has st x).
+    + pose proof (move_tail_out st (if st_empty st then None else Some (s_tail st)) x) as M.
+      destruct (move_tail _ _ x) as [[o s] w]. cbn. destruct M; subst; discriminate.
+    + apply fetch_tail_out.
+  - cbn. discriminate.
+  - destruct (match _ with Some t => _ | None => false end); [cbn; discriminate|].
+    destruct (_ && st_has st k).
+    + pose proof (move_tail_out st (if st_empty st then None else Some (s_tail st)) k) as M.
+      destruct (move_tail _ _ k) as [[o s] w]. cbn. destruct M; subst; discriminate.
+    + apply fetch_tail_out.
+Qed.
+
+(** C16 "never panics", full strength: no parameter set (accepted by Validate or
+    not), no chain, no clock and no store makes Start panic *)
+Theorem start_run_no_panic p times now st : o_out (fst (start_run p times now st)) <> OPanic.
+Proof.
+  unfold start_run. destruct (start_call p times now st) as [w0|[init st1]].
+  - destruct w0; cbn; discriminate.
+  - pose proof (subjective_tail_no_panic p times st1) as NP.
+    destruct (subjective_tail p times st1) as [o w]. cbn [fst] in *.
+    destruct (o_out o) eqn:Eo; cbn; rewrite ?Eo; try discriminate. contradiction.
 Qed.
 
 Lemma tm_some times h : 1 <= h <= net_head times -> exists v, tm times h = Some v.
@@ -669,82 +707,6 @@ Qed.
 
 Lemma tm0_some times h v : tm times h = Some v -> tm0 times h = v.
 Proof. unfold tm0. intros ->. reflexivity. Qed.
-
-(** the tail computation of Start panics exactly when blockTime is 0 and a
-    division is reached: window mode, and either an empty store (estimate) or an
-    old tail older than the pruning window *)
-Definition panic_cond (p : params) (times : list Z) (st1 : store) : Prop :=
-  p_hash p = HNone /\ p_from p = 0 /\ p_block p = 0%Z /\
-  (st_empty st1 = true \/
-   (0 < sat64 (tm0 times (net_head times) + wrapi64 (- p_window p) - tm0 times (s_tail st1)))%Z).
-
-Lemma subjective_tail_panic_iff p times st :
-  wf st (net_head times) ->
-  o_out (fst (subjective_tail p times st)) = OPanic <-> panic_cond p times st.
-Proof.
-  intros Hwf. unfold subjective_tail, panic_cond.
-  destruct (p_hash p) as [| |k] eqn:Hh.
-  - set (n := net_head times).
-    match goal with |- context [tail_height ?a ?b ?c ?d ?e ?f] =>
-      pose proof (tail_height_panic_iff a b c d e f) as TP; destruct (tail_height a b c d e f) as [| | |x] eqn:TH end.
-    + cbn. split; [intros _|reflexivity]. destruct TP as [TP _]. specialize (TP eq_refl).
-      destruct TP as (F & B & O). repeat split; auto.
-      destruct (st_empty st) eqn:E; [auto|right].
-      destruct (wf_nonempty st n Hwf E) as (_ & Ht & Hhh).
-      destruct (tm_some times (s_tail st) ltac:(fold n; lia)) as [v Hv]. rewrite Hv in O.
-      rewrite (tm0_some _ _ _ Hv). unfold tm0. exact O.
-    + cbn. split; [discriminate|]. intros (_ & F & B & O). exfalso.
-      assert (C : TErr = TPanic); [|discriminate]. apply TP. repeat split; auto.
-      destruct (st_empty st) eqn:E; [exact I|].
-      destruct (wf_nonempty st n Hwf E) as (_ & Ht & Hhh).
-      destruct (tm_some times (s_tail st) ltac:(fold n; lia)) as [v Hv]. rewrite Hv.
-      destruct O as [O|O]; [discriminate|]. rewrite (tm0_some _ _ _ Hv) in O. exact O.
-    + cbn. split; [discriminate|]. intros (_ & F & B & O). exfalso.
-      assert (C : TFuel = TPanic); [|discriminate]. apply TP. repeat split; auto.
-      destruct (st_empty st) eqn:E; [exact I|].
-      destruct (wf_nonempty st n Hwf E) as (_ & Ht & Hhh).
-      destruct (tm_some times (s_tail st) ltac:(fold n; lia)) as [v Hv]. rewrite Hv.
-      destruct O as [O|O]; [discriminate|]. rewrite (tm0_some _ _ _ Hv) in O. exact O.
-    + split.
-      * intros HP. exfalso. revert HP.
-        destruct (_ && (x =? 0)); [cbn; discriminate|].
-        destruct (_ && st_has st x).
-        -- pose proof (move_tail_out st (if st_empty st then None else Some (s_tail st)) x) as M.
-           destruct (move_tail _ _ x) as [[o s] w]. cbn. destruct M; subst; discriminate.
-        -- apply fetch_tail_out.
-      * intros (_ & F & B & O). exfalso.
-        assert (C : TVal x = TPanic); [|discriminate]. apply TP. repeat split; auto.
-        destruct (st_empty st) eqn:E; [exact I|].
-        destruct (wf_nonempty st n Hwf E) as (_ & Ht & Hhh).
-        destruct (tm_some times (s_tail st) ltac:(fold n; lia)) as [v Hv]. rewrite Hv.
-        destruct O as [O|O]; [discriminate|]. rewrite (tm0_some _ _ _ Hv) in O. exact O.
-  - cbn. split; [discriminate|intros [C _]; discriminate].
-  - split; [|intros [C _]; discriminate].
-    intros HP. exfalso. revert HP.
-    destruct (match _ with Some t => _ | None => false end); [cbn; discriminate|].
-    destruct (_ && st_has st k).
-    + pose proof (move_tail_out st (if st_empty st then None else Some (s_tail st)) k) as M.
-      destruct (move_tail _ _ k) as [[o s] w]. cbn. destruct M; subst; discriminate.
-    + apply fetch_tail_out.
-Qed.
-
-Theorem start_run_panic_iff p times now st :
-  wf st (net_head times) -> net_head times + 2 < two64 ->
-  o_out (fst (start_run p times now st)) = OPanic <->
-  exists init st1, start_call p times now st = inr (init, st1) /\ panic_cond p times st1.
-Proof.
-  intros Hwf H64. unfold start_run.
-  destruct (start_call p times now st) as [w0|[init st1]] eqn:SC.
-  - split; [|intros (i & s & C & _); discriminate].
-    destruct (start_call_inl _ _ _ _ _ SC) as [Hw0|[Hw0|Hw0]]; subst w0; cbn; discriminate.
-  - destruct (start_call_wf p times now st init st1 Hwf H64 SC) as (Hwf1 & _ & _).
-    pose proof (subjective_tail_panic_iff p times st1 Hwf1) as PI.
-    destruct (subjective_tail p times st1) as [o w]. cbn [fst] in *.
-    split.
-    + intros HP. exists init, st1. split; [reflexivity|]. apply PI.
-      destruct (o_out o) eqn:Eo; cbn in HP; rewrite ?Eo in HP; try discriminate; auto.
-    + intros (i & s & C & HP). inversion C; subst. apply PI in HP. rewrite HP. cbn. exact HP.
-Qed.
 
 (** * Step level: which headers Start deletes *)
 
@@ -770,7 +732,7 @@ Proof.
     pose proof (retarget_spec (s_tail st) (s_head st) x n Ht Hh Hx H64) as R.
     rewrite <- Hst in R.
     set (r := move_tail (st_append st x) (Some (s_tail st)) x) in *. clearbody r.
-    destruct R as [st' W1 W2 W3|st' W1 W2 W3 W4 W5|W1]; cbn; auto; discriminate.
+    destruct R as [st' W1 W2 W3 W3'|st' W1 W2 W3 W4 W5|W1]; cbn; auto; discriminate.
 Qed.
 
 Lemma subjective_tail_window_tail p times st x :
@@ -813,71 +775,158 @@ Proof.
   intros Hwf Hne. unfold adopt_head. destruct (_ && _); [|lia]. eapply sync_up_head; eauto.
 Qed.
 
-(** C16, window clause at the level of Start: in window mode, with header times
-    between the old tail and the network head spaced by at most blockTime and the
-    "far" case not taken, every header that Start removes from the store is older
-    than the pruning window counted from the network head *)
-Theorem start_keeps_window p times now st :
-  let n := net_head times in
-  let t := tmf times in
-  wf st n -> n + 2 < two64 ->
-  p_hash p = HNone -> p_from p = 0 ->
-  (0 < p_block p)%Z -> (0 < p_window p)%Z -> sane (p_window p) ->
-  sane (t (s_tail st)) -> sane (t n) ->
-  (forall h, s_tail st <= h < n -> (0 <= t (h + 1)%N - t h <= p_block p)%Z) ->
-  (t n - p_window p - t (s_tail st) < p_window p)%Z ->
-  forall h, st_has st h = true -> st_has (o_store (fst (start_run p times now st))) h = false ->
-  (t h < t n - p_window p)%Z.
+Lemma target_step_full st n x req :
+  wf st n -> 1 <= x <= n -> n + 2 < two64 ->
+  let r := moved req (move_tail (st_append st x) (if st_empty st then None else Some (s_tail st)) x) in
+  (snd r = WDone \/ snd r = WChunk \/ snd r = WDelete) /\
+  (snd r = WChunk -> x < s_tail st) /\ (snd r = WDelete -> s_head st + 1 < x) /\
+  o_req (fst r) = req /\ (snd r = WDone -> s_tail st <> 0 -> x <= s_head st + 1).
 Proof.
-  intros n t Hwf H64 Hh Hf Hb Hw Sw So Sn Hsp Hnf h Hin Hout.
-  unfold start_run in Hout.
+  intros Hwf Hx H64. destruct (st_empty st) eqn:E.
+  - rewrite (wf_empty st n Hwf E). rewrite st_append_empty. cbn.
+    repeat split; auto; try discriminate. intros _ C; contradiction.
+  - destruct (wf_nonempty st n Hwf E) as (Hst & Ht & Hh).
+    pose proof (retarget_spec (s_tail st) (s_head st) x n Ht Hh Hx H64) as R.
+    rewrite <- Hst in R.
+    set (r := move_tail (st_append st x) (Some (s_tail st)) x) in *. clearbody r.
+    destruct R as [st' W1 W2 W3 W3'|st' W1 W2 W3 W4 W5|W1]; cbn; repeat split; auto; try discriminate; lia.
+Qed.
+
+(** what subjectiveTail does once the tail height x is known to be a height of the chain *)
+Lemma subjective_tail_window_x p times st x :
+  wf st (net_head times) -> net_head times + 2 < two64 ->
+  p_hash p = HNone -> tail_calc p times st = TVal x -> 1 <= x <= net_head times ->
+  let r := subjective_tail p times st in
+  (snd r = WDone \/ snd r = WChunk \/ snd r = WDelete) /\
+  (snd r = WChunk -> x < s_tail st) /\ (snd r = WDelete -> s_head st + 1 < x) /\
+  Forall (fun h => 1 <= h <= net_head times) (o_req (fst r)) /\
+  (snd r = WDone -> s_tail st <> 0 -> x <= s_head st + 1).
+Proof.
+  intros Hwf H64 Hh TC Hx. unfold tail_calc in TC. unfold subjective_tail. rewrite Hh. rewrite TC.
+  destruct (N.eqb_spec x 0); [lia|]. rewrite Bool.andb_false_r.
+  destruct ((x <=? st_height st) && st_has st x) eqn:C1.
+  - assert (Hhas : st_has st x = true) by lia.
+    replace (move_tail st (if st_empty st then None else Some (s_tail st)) x)
+      with (move_tail (st_append st x) (if st_empty st then None else Some (s_tail st)) x)
+      by (rewrite st_append_has; auto).
+    destruct (target_step_full st (net_head times) x [] Hwf Hx H64) as (A & B & C & D & F).
+    repeat split; auto. rewrite D. constructor.
+  - unfold fetch_tail. assert (Ic : in_chain times x = true) by (apply in_chain_spec; lia).
+    rewrite Ic.
+    destruct (target_step_full st (net_head times) x [x] Hwf Hx H64) as (A & B & C & D & F).
+    repeat split; auto. rewrite D. constructor; [lia|constructor].
+Qed.
+
+(** * Step level, window mode *)
+
+(** C16 "never wraps", full strength at the level of the tail computation: in
+    window mode the computed tail height is a height of the chain, at or above
+    the old tail -- for every parameter set, every spacing of header times *)
+Lemma tail_calc_window p times st1 :
+  let n := net_head times in
+  wf st1 n -> n + 2 < two64 -> 1 <= n -> p_from p = 0 ->
+  exists x, tail_calc p times st1 = TVal x /\ 1 <= x <= n /\ (s_tail st1 <> 0 -> s_tail st1 <= x).
+Proof.
+  intros n Hwf1 H64 Hn Hf. unfold tail_calc. fold n. destruct (st_empty st1) eqn:E1.
+  - unfold tail_height. rewrite Hf. cbn [N.ltb N.compare].
+    destruct (estimate_in_chain (p_trusting p) (p_block p) n Hn) as [x [Hx Hr]].
+    exists x. split; [exact Hx|]. split; [exact Hr|]. unfold st_empty in E1. intros; lia.
+  - destruct (wf_nonempty st1 n Hwf1 E1) as (_ & Htr & Hhr).
+    destruct (tm_some times (s_tail st1) ltac:(fold n; lia)) as [v Hv1]. rewrite Hv1.
+    unfold tail_height. rewrite Hf. cbn [N.ltb N.compare].
+    assert (Hsh : st_height st1 = s_head st1) by (unfold st_height; rewrite E1; reflexivity).
+    destruct (find_tail_in_range (p_window p) (p_block p) (s_tail st1) v n
+                (match tm times n with Some t => t | None => 0%Z end) (st_height st1)
+                (fun h0 => if st_has st1 h0 then tm times h0 else None)) as [x (Hx & Hlo & Hhi)].
+    + unfold two64 in *. lia.
+    + lia.
+    + intros h0 Hh0. rewrite Hsh in Hh0. cbn beta.
+      assert (Hs : st_has st1 h0 = true) by (apply (st_has_wf st1 n h0 Hwf1); lia). rewrite Hs.
+      apply tm_some. fold n. lia.
+    + exists x. split; [exact Hx|]. split; [lia|]. intros; lia.
+Qed.
+
+(** C16 "never wraps" and the exact shape of "never wedges" at the level of
+    Start, window mode, ANY parameters and ANY spacing of header times: every
+    height asked from the network is a height of the chain; Start fails only
+    because the network head is itself expired, or because the new tail lies
+    above the store's head + 1 (WDelete, open finding F9a) *)
+Theorem start_window_any p times now st :
+  let n := net_head times in
+  wf st n -> n + 2 < two64 -> 1 <= n ->
+  p_hash p = HNone -> p_from p = 0 ->
+  let '(o, w) := start_run p times now st in
+  (w = WDone \/ w = WNoCall \/ w = WInvalid \/ w = WInitExpired \/ w = WDelete) /\
+  Forall (fun h => 1 <= h <= n) (o_req o) /\
+  (o_out o = OOk <-> (w = WDone \/ w = WNoCall)).
+Proof.
+  intros n Hwf H64 Hn Hh Hf. unfold start_run.
+  destruct (start_call p times now st) as [w0|[init st1]] eqn:SC.
+  { destruct (start_call_inl _ _ _ _ _ SC) as [Hw0|[Hw0|Hw0]]; subst w0; cbn;
+      (split; [auto 6|]); (split; [constructor|]);
+      split; intros HH; try discriminate; auto; destruct HH; discriminate. }
+  destruct (start_call_wf p times now st init st1 Hwf H64 SC) as (Hwf1 & Ht1 & Hst1). fold n in Hwf1.
+  destruct (tail_calc_window p times st1 Hwf1 H64 Hn Hf) as (x & TC & Hx & Hge).
+  destruct (subjective_tail_window_x p times st1 x Hwf1 H64 Hh TC Hx) as (A & B & C & D & F).
+  assert (Hv : params_valid p = true).
+  { unfold start_call in SC. destruct (params_valid p); [reflexivity|discriminate]. }
+  pose proof (subjective_tail_spec p times st1 Hwf1 H64 Hv) as R. fold n in R.
+  set (r := subjective_tail p times st1) in *. clearbody r.
+  destruct R as [|req w' Hw'|req st' W1 W2 W3 W4|req st' W1 W2 W3 W4 W5|req x' W1 W2 W3];
+    cbn [fst snd o_out o_req o_store] in *.
+  - destruct A as [A|[A|A]]; discriminate.
+  - destruct Hw' as [Hw1|[Hw1|Hw1]]; subst w'; destruct A as [A|[A|A]]; discriminate.
+  - split; [auto|]. split; [exact D|]. split; auto.
+  - exfalso. specialize (B eq_refl). destruct (N.eq_dec (s_tail st1) 0) as [E0|E0]; [lia|].
+    specialize (Hge E0). lia.
+  - split; [auto 6|]. split; [exact D|]. split; [discriminate|intros [|]; discriminate].
+Qed.
+
+(** in window mode a header that Start removes lies below the computed tail height *)
+Lemma subjective_tail_window_req p times st x :
+  wf st (net_head times) -> net_head times + 2 < two64 ->
+  p_hash p = HNone -> tail_calc p times st = TVal x -> 1 <= x <= net_head times ->
+  o_req (fst (subjective_tail p times st)) = [] -> x <= st_height st.
+Proof.
+  intros Hwf H64 Hh TC Hx. unfold tail_calc in TC. unfold subjective_tail. rewrite Hh. rewrite TC.
+  destruct (N.eqb_spec x 0); [lia|]. rewrite Bool.andb_false_r.
+  destruct ((x <=? st_height st) && st_has st x) eqn:C1; [lia|].
+  unfold fetch_tail. assert (Ic : in_chain times x = true) by (apply in_chain_spec; lia). rewrite Ic.
+  destruct (target_step_full st (net_head times) x [x] Hwf Hx H64) as (_ & _ & _ & D & _).
+  rewrite D. discriminate.
+Qed.
+
+Lemma start_removed p times now st h :
+  let n := net_head times in
+  wf st n -> n + 2 < two64 -> 1 <= n -> p_hash p = HNone -> p_from p = 0 ->
+  st_has st h = true -> st_has (o_store (fst (start_run p times now st))) h = false ->
+  exists init st1 x, start_call p times now st = inr (init, st1) /\ wf st1 n /\
+    s_tail st1 = s_tail st /\ s_tail st <> 0 /\ s_head st <= s_head st1 /\
+    tail_calc p times st1 = TVal x /\ s_tail st <= h < x /\ x <= n /\ x <= s_head st1 + 1.
+Proof.
+  intros n Hwf H64 Hn Hh Hf Hin Hout.
+  unfold start_run in *.
   destruct (start_call p times now st) as [w0|[init st1]] eqn:SC.
   { destruct (start_call_inl _ _ _ _ _ SC) as [Hw0|[Hw0|Hw0]]; subst w0; cbn in Hout; congruence. }
   destruct (start_call_wf p times now st init st1 Hwf H64 SC) as (Hwf1 & Ht1 & Hst1). fold n in Hwf1.
   assert (Hv : params_valid p = true).
   { unfold start_call in SC. destruct (params_valid p); [reflexivity|discriminate]. }
   pose proof (proj1 (st_has_wf st n h Hwf) Hin) as (Hne & Hrange).
-  assert (Hin1 : st_has st1 h = true).
-  { apply (st_has_wf st1 n h Hwf1). destruct Hst1 as [->|(A & B & C)]; [auto|]. lia. }
+  assert (Hhd : s_head st <= s_head st1) by (destruct Hst1 as [->|(A & B & C)]; lia).
+  assert (Hin1 : st_has st1 h = true) by (apply (st_has_wf st1 n h Hwf1); lia).
   assert (E1 : st_empty st1 = false) by (unfold st_empty; lia).
-  destruct (wf_nonempty st1 n Hwf1 E1) as (Hst1' & Htr & Hhr).
+  destruct (tail_calc_window p times st1 Hwf1 H64 Hn Hf) as (x & TC & Hx & Hge).
+  destruct (subjective_tail_window_x p times st1 x Hwf1 H64 Hh TC Hx) as (_ & _ & _ & _ & BD).
   pose proof (subjective_tail_spec p times st1 Hwf1 H64 Hv) as R. fold n in R.
-  pose proof (subjective_tail_window_tail p times st1) as WT.
-  set (r := subjective_tail p times st1) in *.
-  (* the tail height computed *)
-  assert (FT : exists x, tail_calc p times st1 = TVal x /\ s_tail st1 <= x <= n /\
-                         forall h, s_tail st1 <= h < x -> (t h < t n - p_window p)%Z).
-  { unfold tail_calc. rewrite E1. fold n.
-    destruct (tm_some times (s_tail st1) ltac:(fold n; lia)) as [v Hv1]. rewrite Hv1.
-    destruct (tm_some times n ltac:(fold n; lia)) as [vn Hvn]. rewrite Hvn.
-    unfold tail_height. rewrite Hf. cbn [N.ltb N.compare].
-    assert (v = t (s_tail st1)) by (unfold t, tmf; rewrite (tm0_some _ _ _ Hv1); reflexivity).
-    assert (vn = t n) by (unfold t, tmf; rewrite (tm0_some _ _ _ Hvn); reflexivity).
-    subst v vn.
-    assert (A1 : sane (t (s_tail st1))) by (rewrite Ht1; assumption).
-    assert (A2 : s_tail st1 <= st_height st1 <= n) by (unfold st_height; rewrite E1; lia).
-    assert (A3 : n < two64) by (unfold two64 in *; lia).
-    assert (A4 : forall h0, s_tail st1 <= h0 < n -> (0 <= t (h0 + 1)%N - t h0 <= p_block p)%Z)
-      by (intros h0 Hh0; apply Hsp; lia).
-    assert (A5 : forall h0, s_tail st1 < h0 < st_height st1 ->
-                 (fun h1 => if st_has st1 h1 then tm times h1 else None) h0 = Some (t h0)).
-    { intros h0 Hh0. unfold st_height in Hh0. rewrite E1 in Hh0. cbn beta.
-      assert (Hs : st_has st1 h0 = true) by (apply (st_has_wf st1 n h0 Hwf1); lia). rewrite Hs.
-      destruct (tm_some times h0 ltac:(fold n; lia)) as [v0 Hv0]. rewrite Hv0.
-      unfold t, tmf. rewrite (tm0_some _ _ _ Hv0). reflexivity. }
-    destruct (find_tail_spaced t (p_window p) (p_block p) (s_tail st1) n (st_height st1)
-                (fun h0 => if st_has st1 h0 then tm times h0 else None) Hb Hw Sw A1 Sn A2 A3 A4 A5)
-      as [x (Hx & Hr & Hold)].
-    exists x. split; [exact Hx|]. split; [exact Hr|]. apply Hold. rewrite Ht1. exact Hnf. }
-  destruct FT as (x & TC & Hxr & Hold).
-  specialize (WT x Hwf1 H64 Hh TC).
-  clearbody r.
+  pose proof (subjective_tail_window_tail p times st1 x Hwf1 H64 Hh TC) as WT.
+  set (r := subjective_tail p times st1) in *. clearbody r.
+  exists init, st1, x. split; [reflexivity|]. split; [exact Hwf1|]. split; [exact Ht1|]. split; [exact Hne|].
+  split; [exact Hhd|]. split; [exact TC|].
   destruct R as [|req w' Hw'|req st' W1 W2 W3 W4|req st' W1 W2 W3 W4 W5|req x' W1 W2 W3];
     cbn [fst snd o_out o_req o_store] in *.
   - congruence.
   - congruence.
-  - (* the tail moved: only heights below x are gone *)
-    specialize (WT eq_refl).
+  - specialize (WT eq_refl). specialize (BD eq_refl ltac:(lia)).
     assert (Hfin : exists st2, wf st2 n /\ s_tail st2 = x /\ s_head st1 <= s_head st2 /\ st_has st2 h = false).
     { destruct init.
       - destruct (wf_adopt times st' W1 W2) as [A1 A2]. exists (adopt_head times st').
@@ -890,149 +939,55 @@ Proof.
     assert (Hlt : h < x).
     { destruct (N.ltb_spec h x); [assumption|exfalso].
       assert (st_has st2 h = true); [|congruence].
-      apply (st_has_wf st2 n h F1). pose proof (proj1 (st_has_wf st1 n h Hwf1) Hin1). lia. }
-    apply Hold. pose proof (proj1 (st_has_wf st1 n h Hwf1) Hin1). lia.
+      apply (st_has_wf st2 n h F1). lia. }
+    split; [lia|]. split; [lia|exact BD].
   - exfalso. assert (st_has st' h = true); [|congruence].
-    apply (st_has_wf st' n h W1). pose proof (proj1 (st_has_wf st1 n h Hwf1) Hin1). lia.
-  - exfalso. unfold st_has in Hout. cbn in Hout. unfold st_empty in Hout. cbn in Hout.
-    pose proof (proj1 (st_has_wf st1 n h Hwf1) Hin1). lia.
+    apply (st_has_wf st' n h W1). lia.
+  - exfalso. unfold st_has in Hout. cbn in Hout. unfold st_empty in Hout. cbn in Hout. lia.
 Qed.
 
-(** when additionally the "far" case is not taken and the store's head is
-    younger than the window, the new tail is a height the store already holds *)
-Lemma find_tail_spaced_le_store (t : N -> Z) w b oldH headH storeH time_at :
-  (0 < b)%Z -> (0 < w)%Z -> sane w -> sane (t oldH) -> sane (t headH) ->
-  oldH <= storeH <= headH -> headH < two64 ->
-  (forall h, oldH <= h < headH -> (0 <= t (h + 1)%N - t h <= b)%Z) ->
-  (forall h, oldH < h < storeH -> time_at h = Some (t h)) ->
-  (t headH - w - t oldH < w)%Z -> (t headH - w < t storeH)%Z ->
-  exists x, find_tail w b oldH (t oldH) headH (t headH) storeH time_at = TVal x /\ oldH <= x <= storeH.
-Proof.
-  intros Hb Hw Sw So Sh Hord H64 Hsp Hl Hnf Hyoung.
-  assert (Hl' : forall h, (oldH < h < storeH)%N -> exists t0, time_at h = Some t0)
-    by (intros h Hh; eexists; apply Hl; exact Hh).
-  unfold sane in *. unfold find_tail, find_estimate.
-  rewrite (wrapi64_id (- w)) by (unfold in64, min64, max64, two63; lia).
-  rewrite sat64_id by (unfold in64, min64, max64, two63; lia).
-  replace (t headH + - w)%Z with (t headH - w)%Z by lia.
-  set (E := (t headH - w)%Z). set (D := (E - t oldH)%Z).
-  pose proof (spacing_mono t b oldH headH Hb Hsp) as Mono.
-  destruct (Z.leb_spec D 0) as [HD|HD].
-  { exists oldH. split; [reflexivity|lia]. }
-  destruct (Z.leb_spec w D) as [Hfar|Hclose]; [lia|].
-  rewrite (div64_pos D b) by (unfold in64, min64, max64, two63; lia).
-  assert (Hq : (0 <= D / b)%Z) by (apply Z.div_pos; lia).
-  assert (Hqb : (b * (D / b) <= D)%Z) by (apply Z.mul_div_le; lia).
-  assert (Hk : (D / b < Z.of_N (storeH - oldH))%Z).
-  { destruct (Z.ltb_spec (D / b) (Z.of_N (storeH - oldH))); [assumption|exfalso].
-    pose proof (Mono oldH storeH ltac:(lia) ltac:(lia)) as M. nia. }
-  rewrite u64_nonneg by (unfold two63, two64 in *; lia).
-  assert (Hnw : wrap64 (oldH + Z.to_N (D / b)) = (oldH + Z.to_N (D / b))%N)
-    by (unfold wrap64; apply N.mod_small; lia).
-  rewrite Hnw. set (e := (oldH + Z.to_N (D / b))%N).
-  destruct (scan_spec (S (N.to_nat (storeH - e))) E oldH storeH time_at e ltac:(lia) Hl')
-    as [x (Hx & Hge & Hle & Heq & _ & _)].
-  exists x. split; [exact Hx|].
-  destruct (N.ltb_spec oldH e); destruct (N.ltb_spec e storeH); try (rewrite Heq; lia).
-  specialize (Hle ltac:(lia)). lia.
-Qed.
-
-Lemma target_step_full st n x req :
-  wf st n -> 1 <= x <= n -> n + 2 < two64 ->
-  let r := moved req (move_tail (st_append st x) (if st_empty st then None else Some (s_tail st)) x) in
-  (snd r = WDone \/ snd r = WChunk \/ snd r = WDelete) /\
-  (snd r = WChunk -> x < s_tail st) /\ (snd r = WDelete -> s_head st + 1 < x) /\
-  o_req (fst r) = req.
-Proof.
-  intros Hwf Hx H64. destruct (st_empty st) eqn:E.
-  - rewrite (wf_empty st n Hwf E). rewrite st_append_empty. cbn.
-    repeat split; auto; discriminate.
-  - destruct (wf_nonempty st n Hwf E) as (Hst & Ht & Hh).
-    pose proof (retarget_spec (s_tail st) (s_head st) x n Ht Hh Hx H64) as R.
-    rewrite <- Hst in R.
-    set (r := move_tail (st_append st x) (Some (s_tail st)) x) in *. clearbody r.
-    destruct R as [st' W1 W2 W3|st' W1 W2 W3 W4 W5|W1]; cbn; repeat split; auto; try discriminate; lia.
-Qed.
-
-(** what subjectiveTail does once the tail height x is known to be a height of the chain *)
-Lemma subjective_tail_window_x p times st x :
-  wf st (net_head times) -> net_head times + 2 < two64 ->
-  p_hash p = HNone -> tail_calc p times st = TVal x -> 1 <= x <= net_head times ->
-  let r := subjective_tail p times st in
-  (snd r = WDone \/ snd r = WChunk \/ snd r = WDelete) /\
-  (snd r = WChunk -> x < s_tail st) /\ (snd r = WDelete -> s_head st + 1 < x) /\
-  Forall (fun h => 1 <= h <= net_head times) (o_req (fst r)).
-Proof.
-  intros Hwf H64 Hh TC Hx. unfold tail_calc in TC. unfold subjective_tail. rewrite Hh. rewrite TC.
-  destruct (N.eqb_spec x 0); [lia|]. rewrite Bool.andb_false_r.
-  destruct ((x <=? st_height st) && st_has st x) eqn:C1.
-  - assert (Hhas : st_has st x = true) by lia.
-    replace (move_tail st (if st_empty st then None else Some (s_tail st)) x)
-      with (move_tail (st_append st x) (if st_empty st then None else Some (s_tail st)) x)
-      by (rewrite st_append_has; auto).
-    destruct (target_step_full st (net_head times) x [] Hwf Hx H64) as (A & B & C & D).
-    repeat split; auto. rewrite D. constructor.
-  - unfold fetch_tail. assert (Ic : in_chain times x = true) by (apply in_chain_spec; lia).
-    rewrite Ic.
-    destruct (target_step_full st (net_head times) x [x] Hwf Hx H64) as (A & B & C & D).
-    repeat split; auto. rewrite D. constructor; [lia|constructor].
-Qed.
-
-(** the tail height computed in window mode under the property's hypotheses *)
-Lemma tail_calc_spaced p times st1 :
+(** C16 window clause at the level of Start, FULL strength (and more than the
+    property asks: header times only have to be non-decreasing, which spacing by
+    at most blockTime implies; any block time, window, trusting period): in window
+    mode every header Start removes from the store is older than the pruning
+    window counted from the network head *)
+Theorem start_keeps_window p times now st :
   let n := net_head times in
   let t := tmf times in
-  wf st1 n -> n + 2 < two64 -> 1 <= n ->
-  p_from p = 0 -> (0 < p_block p)%Z -> (0 < p_window p)%Z -> sane (p_window p) ->
-  sane (t (s_tail st1)) -> sane (t n) ->
-  (forall h, s_tail st1 <= h < n -> (0 <= t (h + 1)%N - t h <= p_block p)%Z) ->
-  exists x, tail_calc p times st1 = TVal x /\ 1 <= x <= n /\
-    (s_tail st1 <> 0 -> s_tail st1 <= x) /\
-    (s_tail st1 <> 0 -> (t n - p_window p - t (s_tail st1) < p_window p)%Z ->
-       (t n - p_window p < t (s_head st1))%Z -> x <= s_head st1).
+  wf st n -> n + 2 < two64 -> 1 <= n ->
+  p_hash p = HNone -> p_from p = 0 -> sane (p_window p) ->
+  (forall h, s_tail st <= h < n -> (0 <= t (h + 1)%N - t h)%Z) ->
+  forall h, st_has st h = true -> st_has (o_store (fst (start_run p times now st))) h = false ->
+  (t h < t n - p_window p)%Z.
 Proof.
-  intros n t Hwf1 H64 Hn Hf Hb Hw Sw So Sn Hsp.
-  unfold tail_calc. fold n. destruct (st_empty st1) eqn:E1.
-  - (* empty store: the estimate *)
-    unfold tail_height. rewrite Hf. cbn [N.ltb N.compare].
-    destruct (estimate_in_chain (p_trusting p) (p_block p) n ltac:(lia) Hn) as [x [Hx Hr]].
-    exists x. split; [exact Hx|]. split; [exact Hr|].
-    unfold st_empty in E1. split; intros; lia.
-  - destruct (wf_nonempty st1 n Hwf1 E1) as (Hst1' & Htr & Hhr).
-    destruct (tm_some times (s_tail st1) ltac:(fold n; lia)) as [v Hv1]. rewrite Hv1.
-    destruct (tm_some times n ltac:(fold n; lia)) as [vn Hvn]. rewrite Hvn.
-    unfold tail_height. rewrite Hf. cbn [N.ltb N.compare].
-    assert (v = t (s_tail st1)) by (unfold t, tmf; rewrite (tm0_some _ _ _ Hv1); reflexivity).
-    assert (vn = t n) by (unfold t, tmf; rewrite (tm0_some _ _ _ Hvn); reflexivity).
-    subst v vn.
-    assert (A2 : s_tail st1 <= st_height st1 <= n) by (unfold st_height; rewrite E1; lia).
-    assert (A3 : n < two64) by (unfold two64 in *; lia).
-    assert (A5 : forall h0, s_tail st1 < h0 < st_height st1 ->
-                 (fun h1 => if st_has st1 h1 then tm times h1 else None) h0 = Some (t h0)).
-    { intros h0 Hh0. unfold st_height in Hh0. rewrite E1 in Hh0. cbn beta.
-      assert (Hs : st_has st1 h0 = true) by (apply (st_has_wf st1 n h0 Hwf1); lia). rewrite Hs.
-      destruct (tm_some times h0 ltac:(fold n; lia)) as [v0 Hv0]. rewrite Hv0.
-      unfold t, tmf. rewrite (tm0_some _ _ _ Hv0). reflexivity. }
-    destruct (find_tail_spaced t (p_window p) (p_block p) (s_tail st1) n (st_height st1)
-                (fun h0 => if st_has st1 h0 then tm times h0 else None) Hb Hw Sw So Sn A2 A3 Hsp A5)
-      as [x (Hx & Hr & _)].
-    exists x. split; [exact Hx|]. split; [lia|]. split; [lia|].
-    intros _ Hnf Hyoung.
-    assert (Hsh : st_height st1 = s_head st1) by (unfold st_height; rewrite E1; reflexivity).
-    rewrite Hsh in *.
-    destruct (find_tail_spaced_le_store t (p_window p) (p_block p) (s_tail st1) n (s_head st1)
-                (fun h0 => if st_has st1 h0 then tm times h0 else None) Hb Hw Sw So Sn A2 A3 Hsp A5 Hnf Hyoung)
-      as [x' (Hx' & Hr')].
-    rewrite Hx in Hx'. inversion Hx'. lia.
+  intros n t Hwf H64 Hn Hh Hf Sw Hmono h Hin Hout. subst t.
+  destruct (start_removed p times now st h Hwf H64 Hn Hh Hf Hin Hout)
+    as (init & st1 & x & SC & Hwf1 & Ht1 & Hne & Hhd & TC & Hr & Hxn & Hq).
+  fold n in Hwf1.
+  assert (E1 : st_empty st1 = false) by (unfold st_empty; lia).
+  destruct (wf_nonempty st1 n Hwf1 E1) as (_ & Htr & Hhr).
+  unfold tail_calc in TC. rewrite E1 in TC. fold n in TC.
+  destruct (tm_some times (s_tail st1) ltac:(fold n; lia)) as [v Hv1]. rewrite Hv1 in TC.
+  destruct (tm_some times n ltac:(fold n; lia)) as [vn Hvn]. rewrite Hvn in TC.
+  unfold tail_height in TC. rewrite Hf in TC. cbn [N.ltb N.compare] in TC.
+  assert (Hsh : st_height st1 = s_head st1) by (unfold st_height; rewrite E1; reflexivity).
+  rewrite Hsh in TC.
+  assert (HE : (vn + wrapi64 (- p_window p) = tmf times n - p_window p)%Z).
+  { unfold sane in Sw. rewrite wrapi64_id by (unfold in64, min64, max64, two63; lia).
+    unfold tmf. rewrite (tm0_some _ _ _ Hvn). lia. }
+  rewrite <- HE.
+  apply (find_tail_keeps_window (tmf times) (p_window p) (p_block p) (s_tail st1) v n vn (s_head st1)
+           (fun h0 => if st_has st1 h0 then tm times h0 else None) x); try assumption; try lia.
+  - intros h0 Hh0. apply Hmono. lia.
+  - intros h0 Hh0. cbn beta. assert (Hs : st_has st1 h0 = true) by (apply (st_has_wf st1 n h0 Hwf1); lia). rewrite Hs.
+    destruct (tm_some times h0 ltac:(fold n; lia)) as [v0 Hv0]. rewrite Hv0.
+    unfold tmf. rewrite (tm0_some _ _ _ Hv0). reflexivity.
 Qed.
 
-(** C16, no-wrap / no-wedge clause at the level of Start, in window mode under
-    the property's spacing hypothesis: every height asked from the network is a
-    height of the chain, and Start can only fail because the network head is
-    itself expired or because the new tail is above the store's head + 1 (F9a);
-    the latter is impossible when the "far" case is not taken and the store's
-    head is younger than the pruning window *)
-Theorem start_window_spaced p times now st :
+(** "never wedges", PARTIAL: under the property's hypothesis, "far" case not
+    taken, the store's head younger than the window: the new tail is in the
+    store and Start cannot fail with WDelete *)
+Theorem start_no_wedge_partial p times now st :
   let n := net_head times in
   let t := tmf times in
   wf st n -> n + 2 < two64 -> 1 <= n ->
@@ -1040,48 +995,52 @@ Theorem start_window_spaced p times now st :
   (0 < p_block p)%Z -> (0 < p_window p)%Z -> sane (p_window p) ->
   sane (t (s_tail st)) -> sane (t n) ->
   (forall h, s_tail st <= h < n -> (0 <= t (h + 1)%N - t h <= p_block p)%Z) ->
-  let '(o, w) := start_run p times now st in
-  (w = WDone \/ w = WNoCall \/ w = WInvalid \/ w = WInitExpired \/ w = WDelete) /\
-  Forall (fun h => 1 <= h <= n) (o_req o) /\
-  (o_out o = OOk <-> (w = WDone \/ w = WNoCall)) /\
-  (s_tail st <> 0 -> (t n - p_window p - t (s_tail st) < p_window p)%Z ->
-     (t n - p_window p < t (s_head st))%Z -> w <> WDelete).
+  s_tail st <> 0 -> (t n - p_window p - t (s_tail st) < p_window p)%Z ->
+  (t n - p_window p < t (s_head st))%Z ->
+  snd (start_run p times now st) <> WDelete.
 Proof.
-  intros n t Hwf H64 Hn Hh Hf Hb Hw Sw So Sn Hsp. subst t.
-  unfold start_run.
+  intros n t Hwf H64 Hn Hh Hf Hb Hw Sw So Sn Hsp Hne Hnf Hyoung. subst t. unfold start_run.
   destruct (start_call p times now st) as [w0|[init st1]] eqn:SC.
-  { destruct (start_call_inl _ _ _ _ _ SC) as [Hw0|[Hw0|Hw0]]; subst w0; cbn;
-      (split; [auto 6|]); (split; [constructor|]); (split; [|intros; discriminate]);
-      split; intros HH; try discriminate; auto; destruct HH; discriminate. }
+  { destruct (start_call_inl _ _ _ _ _ SC) as [Hw0|[Hw0|Hw0]]; subst w0; cbn; discriminate. }
   destruct (start_call_wf p times now st init st1 Hwf H64 SC) as (Hwf1 & Ht1 & Hst1). fold n in Hwf1.
-  assert (Hsp1 : forall h, s_tail st1 <= h < n -> (0 <= tmf times (h + 1)%N - tmf times h <= p_block p)%Z)
-    by (rewrite Ht1; exact Hsp).
-  assert (So1 : sane (tmf times (s_tail st1))) by (rewrite Ht1; exact So).
-  destruct (tail_calc_spaced p times st1 Hwf1 H64 Hn Hf Hb Hw Sw So1 Sn Hsp1) as (x & TC & Hx & Hge & Hle).
-  destruct (subjective_tail_window_x p times st1 x Hwf1 H64 Hh TC Hx) as (A & B & C & D).
-  assert (Hv : params_valid p = true).
-  { unfold start_call in SC. destruct (params_valid p); [reflexivity|discriminate]. }
-  pose proof (subjective_tail_spec p times st1 Hwf1 H64 Hv) as R. fold n in R.
-  set (r := subjective_tail p times st1) in *. clearbody r.
-  destruct R as [|req w' Hw'|req st' W1 W2 W3 W4|req st' W1 W2 W3 W4 W5|req x' W1 W2 W3];
-    cbn [fst snd o_out o_req o_store] in *.
-  - destruct A as [A|[A|A]]; discriminate.
-  - destruct Hw' as [Hw1|[Hw1|Hw1]]; subst w'; destruct A as [A|[A|A]]; discriminate.
-  - split; [auto|]. split; [exact D|]. split; [split; auto|]. intros; discriminate.
-  - exfalso. specialize (B eq_refl). destruct (N.eq_dec (s_tail st1) 0) as [E0|E0]; [lia|].
-    specialize (Hge E0). lia.
-  - split; [auto 6|]. split; [exact D|]. split; [split; [discriminate|intros [|]; discriminate]|].
-    intros Hne Hnf Hyoung _. specialize (C eq_refl).
-    assert (Hne1 : s_tail st1 <> 0) by lia.
+  assert (E1 : st_empty st1 = false) by (unfold st_empty; lia).
+  destruct (wf_nonempty st1 n Hwf1 E1) as (_ & Htr & Hhr).
+  destruct (tail_calc_window p times st1 Hwf1 H64 Hn Hf) as (x & TC & Hx & Hge).
+  destruct (subjective_tail_window_x p times st1 x Hwf1 H64 Hh TC Hx) as (A & B & C & D & F).
+  assert (Hxs : x <= s_head st1).
+  { pose proof TC as TC'. unfold tail_calc in TC'. rewrite E1 in TC'. fold n in TC'.
+    destruct (tm_some times (s_tail st1) ltac:(fold n; lia)) as [v Hv1]. rewrite Hv1 in TC'.
+    destruct (tm_some times n ltac:(fold n; lia)) as [vn Hvn]. rewrite Hvn in TC'.
+    unfold tail_height in TC'. rewrite Hf in TC'. cbn [N.ltb N.compare] in TC'.
+    assert (Hsh : st_height st1 = s_head st1) by (unfold st_height; rewrite E1; reflexivity).
+    rewrite Hsh in TC'.
+    assert (v = tmf times (s_tail st1)) by (unfold tmf; rewrite (tm0_some _ _ _ Hv1); reflexivity).
+    assert (vn = tmf times n) by (unfold tmf; rewrite (tm0_some _ _ _ Hvn); reflexivity).
+    subst v vn.
     assert (Hmono : (tmf times (s_head st) <= tmf times (s_head st1))%Z).
     { destruct Hst1 as [->|(_ & Hn1 & Hs1)]; [lia|].
       assert (E : st_empty st = false) by (unfold st_empty; lia).
-      destruct (wf_nonempty st n Hwf E) as (_ & Htr & Hhr).
+      destruct (wf_nonempty st n Hwf E) as (_ & Htr0 & Hhr0).
       rewrite Hs1. fold n in Hn1.
       pose proof (Hsp (s_head st) ltac:(lia)) as HH. rewrite <- Hn1 in HH. fold n. lia. }
-    rewrite <- Ht1 in Hnf. unfold n in *. specialize (Hle Hne1 Hnf ltac:(lia)). lia.
+    assert (A1 : sane (tmf times (s_tail st1))) by (rewrite Ht1; assumption).
+    assert (A2 : s_tail st1 <= s_head st1 <= n) by lia.
+    assert (A3 : n < two64) by (unfold two64 in *; lia).
+    assert (A4 : forall h0, s_tail st1 <= h0 < n -> (0 <= tmf times (h0 + 1)%N - tmf times h0 <= p_block p)%Z)
+      by (intros h0 Hh0; apply Hsp; lia).
+    assert (A5 : forall h0, s_tail st1 <= h0 <= s_head st1 ->
+                 (fun h1 => if st_has st1 h1 then tm times h1 else None) h0 = Some (tmf times h0)).
+    { intros h0 Hh0. cbn beta. assert (Hs : st_has st1 h0 = true) by (apply (st_has_wf st1 n h0 Hwf1); lia). rewrite Hs.
+      destruct (tm_some times h0 ltac:(fold n; lia)) as [v0 Hv0]. rewrite Hv0.
+      unfold tmf. rewrite (tm0_some _ _ _ Hv0). reflexivity. }
+    assert (A6 : (tmf times n - p_window p - tmf times (s_tail st1) < p_window p)%Z) by (rewrite Ht1; exact Hnf).
+    assert (A7 : (tmf times n - p_window p < tmf times (s_head st1))%Z) by lia.
+    destruct (find_tail_spaced_le_store (tmf times) (p_window p) (p_block p) (s_tail st1) n (s_head st1)
+                (fun h0 => if st_has st1 h0 then tm times h0 else None) Hb Hw Sw A1 Sn A2 A3 A4 A5 A6 A7) as [x' (Hx' & Hr')].
+    rewrite TC' in Hx'. inversion Hx'; subst x'. lia. }
+  destruct (subjective_tail p times st1) as [o w]. cbn [fst snd] in *.
+  destruct (o_out o); cbn [snd]; intros Hd; specialize (C Hd); lia.
 Qed.
-
 (** * Witnesses of the regions where the property fails (run on the real code by harness/c16) *)
 Fixpoint mk_times (t : Z) (gaps : list Z) : list Z :=
   match gaps with [] => [t] | g :: r => t :: mk_times (t + g)%Z r end.
@@ -1111,31 +1070,42 @@ Proof.
   specialize (H h Hin). cbn beta in H. lia.
 Qed.
 
-(** F8: default parameters, empty store *)
+
+(** the former findings F8, F9b, F9c (store synced up to the head), F9d, F9e: fixed *)
 Definition w8_params : params := Params (337 * w_hour)%Z 0 HNone (336 * w_hour)%Z 0 0.
 Definition w8_times : list Z := mk_times 0%Z (repeat w_sec 9).
-Lemma w8_panics :
+Lemma w8_fixed :
   params_valid w8_params = true /\
-  o_out (start_step w8_params w8_times (10 * w_sec)%Z (Store 0 0 [])) = OPanic.
+  start_step w8_params w8_times (10 * w_sec)%Z (Store 0 0 []) = Obs OOk [1] (Store 1 10 []).
 Proof. vm_compute. auto. Qed.
 
-(** F9b: halted chain: 30 headers 1s apart, then a 1000s gap; window 70s, blockTime 1s *)
 Definition w9b_params : params := Params (70 * w_sec)%Z 0 HNone w_big w_sec 1.
 Definition w9b_times : list Z := mk_times 0%Z (repeat w_sec 29 ++ [1000 * w_sec]%Z).
-Lemma w9b_wraps :
-  params_valid w9b_params = true /\
-  start_step w9b_params w9b_times (1029 * w_sec + 1)%Z (Store 1 30 []) =
-    Obs OErr [18446744073709551577] (Store 1 31 []).
+Lemma w9b_fixed :
+  start_step w9b_params w9b_times (1029 * w_sec + 1)%Z (Store 1 30 []) = Obs OOk [] (Store 1 31 []).
 Proof. vm_compute. auto. Qed.
 
-(** F9c: 61 headers 5ns apart, blockTime 10ns, window 100ns *)
 Definition w9c_params : params := Params 100 0 HNone w_big 10 1.
 Definition w9c_times : list Z := mk_times 5%Z (repeat 5%Z 60).
-Lemma w9c_prunes_young :
-  params_valid w9c_params = true /\
+Lemma w9c_fixed :
+  start_step w9c_params w9c_times 306 (Store 1 60 []) = Obs OOk [] (Store 41 61 []) /\
+  (tmf w9c_times 40 < tmf w9c_times 61 - 100)%Z.
+Proof. vm_compute. auto. Qed.
+
+Lemma w9d_fixed :
+  start_step (Params 100 0 HNone w_big 1 1) [0; 10; 150]%Z 151 (Store 1 2 []) = Obs OOk [] (Store 3 3 []).
+Proof. vm_compute. auto. Qed.
+
+Lemma w9e_fixed :
+  params_valid (Params (-5 * w_sec)%Z 0 HNone w_big w_sec 1) = false /\
+  params_valid (Params (5 * w_sec)%Z 0 HNone w_big (- w_sec)%Z 1) = false.
+Proof. vm_compute. auto. Qed.
+
+(** the corner of F9c that 85f942c closed: the store holds only [1..50], the
+    estimate 61 - 10 = 51 is Store.Height() + 1; the downward walk now starts there too *)
+Lemma w9c_corner_fixed :
   spaced_b w9c_times 10 1 61 = true /\
-  start_step w9c_params w9c_times 306 (Store 1 60 []) = Obs OOk [] (Store 51 61 []) /\
-  (tmf w9c_times 50 > tmf w9c_times 61 - 100)%Z.
+  start_step w9c_params w9c_times 306 (Store 1 50 []) = Obs OOk [] (Store 41 61 []).
 Proof. vm_compute. auto. Qed.
 
 (** F9a: store [1..50], network head 200, blockTime 10ns, window 200ns *)
@@ -1173,20 +1143,6 @@ Proof.
 Qed.
 
 (** F9d: headers at 0, 10, 150ns; window 100ns, blockTime 1ns *)
-Definition w9d_params : params := Params 100 0 HNone w_big 1 1.
-Lemma w9d_overshoots :
-  params_valid w9d_params = true /\
-  start_step w9d_params [0; 10; 150]%Z 151 (Store 1 2 []) = Obs OErr [51] (Store 1 3 []).
-Proof. vm_compute. auto. Qed.
-
-(** F9e: a negative pruning window passes Validate *)
-Definition w9e_params : params := Params (-5 * w_sec)%Z 0 HNone w_big w_sec 1.
-Lemma w9e_negative :
-  params_valid w9e_params = true /\
-  start_step w9e_params (mk_times 0%Z (repeat w_sec 20)) (20 * w_sec + 1)%Z (Store 1 20 []) =
-    Obs OErr [26] (Store 1 21 []).
-Proof. vm_compute. auto. Qed.
-
 (** F9f: the store is the single header 62, SyncFromHash names header 61 *)
 Definition w9f_params : params := Params (337 * w_hour)%Z 0 (HAt 61) w_big w_sec 1.
 Lemma w9f_chunk :
@@ -1196,6 +1152,21 @@ Lemma w9f_chunk :
 Proof. vm_compute. auto. Qed.
 
 (** * Facts used by the oracle lemma (Oracle/C16.v) *)
+Lemma find_tail_val w b oldH oldT headH headT storeH time_at :
+  (forall h, (oldH <= h <= storeH)%N -> exists t, time_at h = Some t) ->
+  exists x, find_tail w b oldH oldT headH headT storeH time_at = TVal x.
+Proof.
+  intros Hl. unfold find_tail.
+  destruct (find_estimate_some w b oldH oldT headH headT) as [r ->].
+  destruct r as [e|]; [|eauto].
+  set (E := (headT + wrapi64 (- w))%Z).
+  destruct (scan_down_spec (S (N.to_nat (e - oldH))) E oldH storeH time_at e ltac:(lia) Hl)
+    as [c (Hc & _)]. rewrite Hc.
+  assert (Hl' : forall h, (oldH < h < storeH)%N -> exists t, time_at h = Some t) by (intros; apply Hl; lia).
+  destruct (scan_spec (S (N.to_nat (storeH - c))) E oldH storeH time_at c ltac:(lia) Hl') as [x (Hx & _)].
+  eauto.
+Qed.
+
 Lemma scan_val_of_lookups fuel E oldH storeH time_at cur :
   (N.to_nat (storeH - cur) < fuel)%nat ->
   (forall h, oldH < h < storeH -> exists t, time_at h = Some t) ->
@@ -1211,13 +1182,15 @@ Proof.
   intros Hwf. unfold tail_calc, tail_height.
   destruct (0 <? p_from p); [right; eauto|].
   destruct (st_empty st) eqn:E.
-  - unfold estimate_tail. destruct (div64 _ _); [|auto]. destruct (_ <=? _); right; eauto.
+  - destruct (estimate_tail _ _ _) eqn:EE; auto; try (right; eauto);
+      unfold estimate_tail in EE; destruct (_ <=? _)%Z; try discriminate;
+      destruct (div64 _ _); try discriminate; destruct (_ <=? _); discriminate.
   - destruct (wf_nonempty st _ Hwf E) as (_ & Ht & Hh).
     destruct (tm_some times (s_tail st) ltac:(lia)) as [v Hv]. rewrite Hv.
-    unfold find_tail. destruct (find_estimate _ _ _ _ _ _) as [[e|]|]; [|right; eauto|auto].
-    right. apply scan_val_of_lookups; [lia|].
-    intros h Hh0. unfold st_height in Hh0. rewrite E in Hh0.
-    assert (Hs : st_has st h = true) by (apply (st_has_wf st _ h Hwf); lia). rewrite Hs.
+    right.
+    assert (Hsh : st_height st = s_head st) by (unfold st_height; rewrite E; reflexivity).
+    apply find_tail_val. intros h0 Hh0. rewrite Hsh in Hh0. cbn beta.
+    assert (Hs : st_has st h0 = true) by (apply (st_has_wf st _ h0 Hwf); lia). rewrite Hs.
     apply tm_some. lia.
 Qed.
 
@@ -1362,43 +1335,7 @@ Proof.
     + split; auto.
 Qed.
 
-(** * The refutations stated in Props/C16.v *)
-Lemma no_panic_refuted : exists p times now st,
-  params_valid p = true /\ wf st (net_head times) /\
-  o_out (start_step p times now st) = OPanic.
-Proof.
-  exists w8_params, w8_times, (10 * w_sec)%Z, (Store 0 0 []).
-  destruct w8_panics as [A B]. split; [exact A|]. split; [|exact B].
-  split; [reflexivity|left; split; reflexivity].
-Qed.
-
-Lemma no_wrap_refuted : exists p times now st,
-  params_valid p = true /\ wf st (net_head times) /\ (0 < p_block p)%Z /\ (0 < p_window p)%Z /\
-  exists x, In x (o_req (start_step p times now st)) /\ net_head times < x /\
-  o_out (start_step p times now st) = OErr.
-Proof.
-  exists w9b_params, w9b_times, (1029 * w_sec + 1)%Z, (Store 1 30 []).
-  destruct w9b_wraps as [A B]. split; [exact A|]. split; [split; [reflexivity|right; vm_compute; repeat split; discriminate]|].
-  split; [reflexivity|]. split; [reflexivity|].
-  exists 18446744073709551577. rewrite B. cbn [o_req o_out]. split; [left; reflexivity|]. split; [reflexivity|reflexivity].
-Qed.
-
-Lemma keeps_window_refuted : exists p times now st h,
-  params_valid p = true /\ wf st (net_head times) /\ p_hash p = HNone /\ p_from p = 0 /\
-  (0 < p_block p)%Z /\ (0 < p_window p)%Z /\
-  (forall k, 1 <= k < net_head times -> (0 <= tmf times (k + 1)%N - tmf times k <= p_block p)%Z) /\
-  o_out (start_step p times now st) = OOk /\
-  st_has st h = true /\ st_has (o_store (start_step p times now st)) h = false /\
-  (tmf times h > tmf times (net_head times) - p_window p)%Z.
-Proof.
-  exists w9c_params, w9c_times, 306%Z, (Store 1 60 []), 50.
-  destruct w9c_prunes_young as (A & B & C & D).
-  split; [exact A|]. split; [split; [reflexivity|right; vm_compute; repeat split; discriminate]|].
-  split; [reflexivity|]. split; [reflexivity|]. split; [reflexivity|]. split; [reflexivity|].
-  split; [exact (spaced_b_sound _ _ _ _ B)|].
-  rewrite C. cbn [o_out o_store]. split; [reflexivity|]. split; [reflexivity|]. split; [reflexivity|exact D].
-Qed.
-
+(** * The refutations stated in Props/C16.v (what is still false of the current code) *)
 Lemma tail_within_chain_refuted : exists p times now st,
   params_valid p = true /\ wf st (net_head times) /\
   o_out (start_step p times now st) = OErr /\ s_extra (o_store (start_step p times now st)) <> [].
@@ -1421,26 +1358,6 @@ Proof.
   split; [exact B|exact w9w_forever].
 Qed.
 
-Lemma close_case_refuted : exists p times now st x,
-  params_valid p = true /\ wf st (net_head times) /\ (0 < p_block p)%Z /\ (0 < p_window p)%Z /\
-  start_step p times now st = Obs OErr [x] (Store 1 3 []) /\ net_head times < x.
-Proof.
-  exists w9d_params, [0; 10; 150]%Z, 151%Z, (Store 1 2 []), 51.
-  destruct w9d_overshoots as [A B]. split; [exact A|].
-  split; [split; [reflexivity|right; vm_compute; repeat split; discriminate]|].
-  split; [reflexivity|]. split; [reflexivity|]. split; [exact B|reflexivity].
-Qed.
-
-Lemma validate_negative_refuted : exists p times now st x,
-  params_valid p = true /\ (p_window p < 0)%Z /\ wf st (net_head times) /\
-  start_step p times now st = Obs OErr [x] (Store 1 21 []) /\ net_head times < x.
-Proof.
-  exists w9e_params, (mk_times 0%Z (repeat w_sec 20)), (20 * w_sec + 1)%Z, (Store 1 20 []), 26.
-  destruct w9e_negative as [A B]. split; [exact A|]. split; [reflexivity|].
-  split; [split; [reflexivity|right; vm_compute; repeat split; discriminate]|].
-  split; [exact B|reflexivity].
-Qed.
-
 Lemma move_down_refuted : exists p times now st,
   params_valid p = true /\ wf st (net_head times) /\
   start_run p times now st = (Obs OErr [] (Store 61 62 []), WChunk).
@@ -1450,9 +1367,9 @@ Proof.
   split; [split; [reflexivity|right; vm_compute; repeat split; discriminate]|exact B].
 Qed.
 
-(** non-vacuity of the positive step-level theorems: a run that meets their
-    hypotheses and moves the tail up (61 headers 10ns apart, store [45..60],
-    window 100ns, blockTime 10ns: the "close" case) *)
+(** non-vacuity of the positive step-level theorems: runs that meet their
+    hypotheses and move the tail up: the close case (store [45..60]) and the far
+    case with fast blocks (store [1..50], tail found by the downward walk) *)
 Definition wok_params : params := Params 100 0 HNone w_big 10 1.
 Definition wok_times : list Z := mk_times 10%Z (repeat 10%Z 60).
 Lemma wok_run :
@@ -1462,3 +1379,10 @@ Lemma wok_run :
   (tmf wok_times 61 - 100 < tmf wok_times 60)%Z /\
   start_run wok_params wok_times 611 (Store 45 60 []) = (Obs OOk [] (Store 51 61 []), WDone).
 Proof. vm_compute. repeat split; reflexivity. Qed.
+
+Lemma wok_far_run :
+  params_valid w9c_params = true /\
+  spaced_b w9c_times 10 1 61 = true /\
+  start_run w9c_params w9c_times 306 (Store 1 50 []) = (Obs OOk [] (Store 41 61 []), WDone) /\
+  (tmf w9c_times 40 < tmf w9c_times 61 - 100)%Z /\ (tmf w9c_times 41 >= tmf w9c_times 61 - 100)%Z.
+Proof. vm_compute. repeat split; try reflexivity; discriminate. Qed.
